@@ -1,0 +1,9 @@
+//go:build verif && race
+// +build verif,race
+
+package verifhook
+
+// counting is off under the race detector: an atomic add on a shared counter is
+// synchronisation to the detector and would order the goroutines that pass the
+// same point, hiding races between them. Actions still work (every arrival).
+const counting = false
